@@ -41,21 +41,36 @@ def check(ctx):
         BY1, BY2 = (norm(e) for e in by_assign[0].targets[0].elts) if by_assign else ("by1", "by2")
         EX1 = next((norm(n.targets[0]) for n in ex2 if norm(n.value.args[0]) == f"*{BY1}"), "extract1")
         EX2 = next((norm(n.targets[0]) for n in ex2 if norm(n.value.args[0]) == f"*{BY2}"), "extract2")
-        dcs = [n for n in ast.walk(fn.node) if isinstance(n, ast.DictComp)
-               and any(OTH in {x.id for x in ast.walk(g.iter) if isinstance(x, ast.Name)} for g in n.generators)]
-        for d in dcs:
+        from ..forms import contributions
+        # the lookup is the mapping queried with the left-hand key extraction: X.get(EX1(item), ...) / EX1(item) in X / X[id]
+        look_names = set()
+        for n in body_nodes(fn.node):
+            if isinstance(n, ast.Call) and isinstance(n.func, ast.Attribute) and n.func.attr == "get" and isinstance(n.func.value, ast.Name):
+                look_names.add(n.func.value.id)
+            if isinstance(n, ast.Compare) and len(n.ops) == 1 and isinstance(n.ops[0], (ast.In, ast.NotIn)) and isinstance(n.comparators[0], ast.Name):
+                look_names.add(n.comparators[0].id)
+        dcs = []
+        for ln in sorted(look_names):
+            cs = [x for x in contributions(fn, ln) if x["key"] is not None]
+            if not cs:
+                continue
             n_lookup += 1
-            it = d.generators[0].iter
-            ok = isinstance(it, ast.Call) and isinstance(it.func, ast.Name) and it.func.id == "reversed" and norm(it.args[0]) == OTH
-            ok = ok or norm(it).endswith("[::-1]")
-            ctx.ob("ORD-4", fn, norm(d), d, ok,
-                   "later items are overwritten by earlier ones: the first right item with a key is the one found" if ok else
-                   f"lookup dict iterates {norm(it)}: with duplicate right keys the LAST item wins instead of the first",
-                   clause="merging in the non-key entries of the first right item with equal key values")
-            ok = norm(d.key) == f"{EX2}({norm(d.generators[0].target)})" and norm(d.value) == norm(d.generators[0].target)
-            ctx.ob("ORD-4", fn, f"key {norm(d.key)} -> {norm(d.value)}", d, ok,
-                   "right items are keyed by the right-hand key names" if ok else "lookup is not keyed by the right-hand key extraction",
-                   nontrivial=False)
+            LOOKN = ln
+            for x in cs:
+                it = x["iter"]
+                firstwins = any(" not in " in t and ln in t for t in x["conds"])
+                ok = firstwins or (it is not None and ((isinstance(it, ast.Call) and isinstance(it.func, ast.Name) and it.func.id == "reversed"
+                                                        and it.args and norm(it.args[0]) == OTH) or norm(it) in (f"{OTH}[::-1]",)))
+                ctx.ob("ORD-4", fn, norm(x["node"])[:120], x["node"], ok,
+                       "later items are overwritten by earlier ones (or never overwrite): the first right item with a key is the one found" if ok else
+                       f"lookup is filled while iterating {norm(it) if it is not None else '?'} with last-wins stores: with duplicate right keys the "
+                       f"LAST item wins instead of the first", clause="merging in the non-key entries of the first right item with equal key values")
+                tgt = norm(x["target"]) if x["target"] is not None else None
+                ok = tgt is not None and norm(x["key"]) == f"{EX2}({tgt})" and norm(x["value"]) == tgt
+                ctx.ob("ORD-4", fn, f"key {norm(x['key'])} -> {norm(x['value'])}", x["node"], ok,
+                       "right items are keyed by the right-hand key names" if ok else "lookup is not keyed by the right-hand key extraction",
+                       nontrivial=False)
+                dcs.append(x["node"])
         # merged entries
         strip = [n for n in body_nodes(fn.node) if isinstance(n, ast.Assign) and isinstance(n.value, ast.DictComp)
                  and n.value.generators[0].ifs]
@@ -70,7 +85,7 @@ def check(ctx):
                clause="merging in the non-key entries")
         lp = [n for n in ast.walk(fn.node) if isinstance(n, ast.For) and norm(n.iter) == fn.params[0]]
         ITEM = norm(lp[0].target) if lp else "item"
-        LOOK = norm(fn.module.parent.get(dcs[0]).targets[0]) if dcs and isinstance(fn.module.parent.get(dcs[0]), ast.Assign) else "other_by_id"
+        LOOK = LOOKN if dcs else "other_by_id"
         ok = rec["update_target"] == [ITEM] and bool(strip) and rec["update_arg"] == [norm(strip[0].targets[0])]
         ctx.ob("SIB-13", fn, f"{rec['update_target']}.update({rec['update_arg']})", ups[0] if ups else fn.node, ok,
                "only the left item is updated, with the freshly built dict" if ok else
@@ -169,9 +184,14 @@ def check(ctx):
         star = [a for a in c.args if isinstance(a, ast.Starred)]
         swapped = False
         if star and isinstance(star[0].value, ast.Name) and star[0].value.id != BY:
-            for d in defs_reaching(fj, star[0].value.id, c):
-                if d.value is not None and ("reversed(" in norm(d.value) or "[::-1]" in norm(d.value)) and BY in {x.id for x in ast.walk(d.value) if isinstance(x, ast.Name)}:
-                    swapped = True
+            from ..forms import contributions
+            cs = contributions(fj, star[0].value.id, c)
+            srcs = {norm(x["iter"]) for x in cs if x["iter"] is not None}
+            vals = [norm(x["value"]) for x in cs if x["value"] is not None]
+            # every element comes from iterating by; tuple elements are reversed, plain names kept
+            if cs and srcs == {BY} and any("reversed(" in v or "[::-1]" in v for v in vals) \
+                    and all(("reversed(" in v or "[::-1]" in v) or v == norm(x["target"]) or " if " in v for v, x in zip(vals, [y for y in cs if y["value"] is not None])):
+                swapped = True
         okr = bool(c.args) and text(c.args[0]) == text(env["_A"])
         ctx.ob("SIB-15", fj, text(c), c, okr and swapped,
                "reverse join receives the by-tuples with the two names swapped" if (okr and swapped) else
